@@ -559,10 +559,11 @@ CHECKS = {
         "parts": [
             {"module": "rueidis", "scenario": "setup", "quick": 6000, "thorough": 400000},
             {"module": "rueidis", "scenario": "setup", "variant": "enum", "quick": 4096, "thorough": 131072},
+            {"module": "rueidis", "scenario": "sentinel-follow", "quick": 1500, "thorough": 100000},
         ],
-        "expected_probes": ["setup-step-failed", "server-without-hello"],
+        "expected_probes": ["setup-step-failed", "server-without-hello", "sentinel-connection-with-own-settings"],
         "components": {"real": REAL, "stubs": STUBS},
-        "assumptions": ["single-node front-end; ReplicaOnly/READONLY and the sentinel options are not exercised", "credential refresh (RefreshAfter) is not exercised"],
+        "assumptions": ["parts 1 and 2: single-node front-end. Part 3 (sentinel-follow, see C23): data nodes and sentinels take different credentials (none / password / user+password) and client names, a database is selected on data nodes; the first command after the setup exchange on every connection must find the session its class asks for (sentinel.go newSentinelOpt) and no SELECT may reach a sentinel; setup-step failures are not injected there. READONLY is judged by the cluster scenario (C21)", "credential refresh (RefreshAfter) is not exercised"],
     },
     "C25": {
         "level": "exploration",
